@@ -267,6 +267,8 @@ impl<BE: DecryptWriteBackend> Packer<BE> {
                     .readahead_scoped(scope)
                     .parallel_map_scoped(scope, |(data, id): (Bytes, BlobId)| {
                         let (data, data_len, uncompressed_length) = be.process_data(&data)?;
+                        #[cfg(feature = "verif-hooks")]
+                        crate::verif::sched_point("packer:after_process_data");
                         Ok((data, id, u64::from(data_len), uncompressed_length))
                     })
                     .readahead_scoped(scope)
@@ -278,6 +280,8 @@ impl<BE: DecryptWriteBackend> Packer<BE> {
                     })
                     .try_for_each(|item: RusticResult<_>| -> RusticResult<()> {
                         let (data, id, data_len, ul) = item?;
+                        #[cfg(feature = "verif-hooks")]
+                        crate::verif::sched_point("packer:before_add_raw");
                         raw_packer
                             .write()
                             .unwrap()
@@ -784,6 +788,8 @@ impl<BE: DecryptWriteBackend> FileWriterHandle<BE> {
     fn process(&self, load: (BytesList, PackId, IndexPack)) -> RusticResult<IndexPack> {
         let (file, id, mut index) = load;
         index.id = id;
+        #[cfg(feature = "verif-hooks")]
+        crate::verif::sched_point("packer:before_pack_write");
         self.be
             .write_bytes(FileType::Pack, &id, self.cacheable, file)?;
         index.time = Some(Timestamp::now());
@@ -791,6 +797,8 @@ impl<BE: DecryptWriteBackend> FileWriterHandle<BE> {
     }
 
     fn index(&self, index: IndexPack) -> RusticResult<()> {
+        #[cfg(feature = "verif-hooks")]
+        crate::verif::sched_point("packer:before_index_add");
         self.indexer.write().unwrap().add(index)?;
         Ok(())
     }
